@@ -14,13 +14,15 @@
   Conventions: bytes are `Nat`s, the device memory is a total function `rd : Nat → Nat` on BYTE addresses, a
   provider serves `cs` bytes per `read_chunk` (4 or 8 on real hardware). Every function returns `M α`, a writer
   monad: the outcome (`ok | err | panic site`) and the number of provider calls made (`read_chunk`,
-  `write_word`, `clear_errors` each count 1). All `u16` arithmetic that the Rust code performs with unchecked
+  `write_word`, `clear_errors` each count 1). `u16` arithmetic that the Rust code performs with unchecked
   `+`/`*` goes through `add16`/`mul16`, parameterised by the build mode: `checked` (debug: overflow ⇒
-  `panic "<fn>:<add|mul>"`) and `wrapping` (release: mod 2^16).
+  `panic "<fn>:<add|mul>"`) and `wrapping` (release: mod 2^16); after the repairs of the category walk, `size`
+  and the `EepromRange` cursor the only such site left is the PDO bit-length sum (which cannot overflow).
 
   Build configuration modelled: the `no_std` configuration without `log`/`defmt` that the harness builds, in
-  which `fmt::trace!(..)` EVALUATES its arguments (`let _ = (&a, &b)`); a trace argument that contains
-  unchecked arithmetic (`self.byte_pos + skip` in `skip_ahead_bytes`) is therefore an overflow site of its own. Import-free apart from Basic/Generated: links into the native drivers.
+  which `fmt::trace!(..)` EVALUATES its arguments (`let _ = (&a, &b)`). After the repairs no trace argument
+  contains arithmetic that can overflow (`u32::from(word_addr) * 2`, a precomputed `new_pos`).
+  Import-free apart from Basic/Generated: links into the native drivers.
 -/
 import EcModel.Basic
 import EcModel.Generated.Eeprom
@@ -125,55 +127,58 @@ def writeWord (d : Dev) (w b0 b1 : Nat) : MW Unit :=
 
 /-! ## `EepromRange` -/
 
-/-- `EepromRange { byte_pos, end }` (the provider is passed separately). -/
+/-- `EepromRange { byte_pos, end }` (the provider is passed separately). Both fields are `u32` byte addresses:
+    the SII address space is 2^16 words = 2^17 bytes, so a `u16` cannot hold them. All arithmetic on them is
+    exact in the model: `Lemmas/EepromSafe.Range.WF` (`byte_pos, end ≤ 2^17`) is an invariant of every function
+    below, far from the `u32` limit. -/
 structure Range where
   pos : Nat
   endp : Nat
   deriving Repr, DecidableEq
 
-/-- `EepromRange::new`: `byte_pos: start_word * 2, end: start_word * 2 + len_words * 2`. -/
-def Range.new (m : Mode) (startWord lenWords : Nat) : M Range :=
-  bind (mul16 m "new:mul" startWord 2) fun bp =>
-  bind (mul16 m "new:mul" startWord 2) fun a =>
-  bind (mul16 m "new:mul" lenWords 2) fun b =>
-  bind (add16 m "new:add" a b) fun e =>
-  ret ⟨bp, e⟩
+/-- `ADDRESS_SPACE_BYTES = 2 * (u16::MAX + 1)`. -/
+def ADDRESS_SPACE_BYTES : Nat := 131072
 
-/-- `EepromRange::skip_ahead_bytes`. The `trace!` argument `self.byte_pos + skip` is evaluated first, then the
-    comparison `self.byte_pos + skip >= self.end`, then `self.byte_pos += skip`. -/
-def Range.skip (m : Mode) (r : Range) (skip : Nat) : M Range :=
-  bind (add16 m "skip_ahead_bytes:add" r.pos skip) fun _ =>
-  bind (add16 m "skip_ahead_bytes:add" r.pos skip) fun s =>
-  if s ≥ r.endp then fail .overrun
-  else bind (add16 m "skip_ahead_bytes:add" r.pos skip) fun s' => ret { r with pos := s' }
+/-- `EepromRange::new`: `byte_pos = u32::from(start_word) * 2`,
+    `end = (byte_pos + u32::from(len_words) * 2).min(ADDRESS_SPACE_BYTES)`; the arguments are `u16`s. -/
+def Range.new (_m : Mode) (startWord lenWords : Nat) : M Range :=
+  ret ⟨startWord * 2, min (startWord * 2 + lenWords * 2) ADDRESS_SPACE_BYTES⟩
 
-/-- `EepromRange::read_byte`: clear_errors, read_chunk(byte_pos / 2), `byte_pos += 1`, then `res.get(skip)`.
-    Note: no comparison with `end`. -/
-def Range.readByte (m : Mode) (p : Prov) (r : Range) : M (Nat × Range) :=
-  bind clearErrors fun _ =>
-  bind (readChunk p (r.pos / 2)) fun res =>
-  bind (add16 m "read_byte:add" r.pos 1) fun np =>
-  match res[r.pos % 2]? with
-  | some b => ret (b, { r with pos := np })
-  | none => fail .internal
+/-- `EepromRange::word_pos`: `u16::try_from(byte_pos / 2)` or `Err(SectionOverrun)`. -/
+def wordPos (pos : Nat) : M Nat := if pos / 2 < 65536 then ret (pos / 2) else fail .overrun
+
+/-- `EepromRange::skip_ahead_bytes`: `new_pos = byte_pos + u32::from(skip)`; `new_pos >= end ⇒ SectionOverrun`. -/
+def Range.skip (_m : Mode) (r : Range) (skip : Nat) : M Range :=
+  if r.pos + skip ≥ r.endp then fail .overrun
+  else ret { r with pos := r.pos + skip }
+
+/-- `EepromRange::read_byte`: `byte_pos >= end ⇒ SectionOverrun`; then clear_errors, read_chunk(word_pos()?),
+    `byte_pos += 1`, `res.get(skip)`. -/
+def Range.readByte (_m : Mode) (p : Prov) (r : Range) : M (Nat × Range) :=
+  if r.pos ≥ r.endp then fail .overrun
+  else
+    bind clearErrors fun _ =>
+    bind (wordPos r.pos) fun w =>
+    bind (readChunk p w) fun res =>
+    match res[r.pos % 2]? with
+    | some b => ret (b, { r with pos := r.pos + 1 })
+    | none => fail .internal
 
 /-- The `while !buf.is_empty()` loop of `Read::read`; `rem` = bytes still wanted, `acc` = bytes copied so far.
     Returns the bytes and the new `byte_pos`. Fuel `rem + 1` suffices when chunks are non-empty. -/
-def readLoop (m : Mode) (p : Prov) : Nat → Nat → Nat → List Nat → M (List Nat × Nat)
+def readLoop (_m : Mode) (p : Prov) : Nat → Nat → Nat → List Nat → M (List Nat × Nat)
   | 0, _, _, _ => fail .fuel
   | fuel + 1, pos, rem, acc =>
     if rem = 0 then ret (acc, pos)
     else
-      bind (readChunk p (pos / 2)) fun chunk =>
+      bind (wordPos pos) fun w =>
+      bind (readChunk p w) fun chunk =>
       -- `chunk.get(skip..).ok_or(Error::Internal)?`
       if pos % 2 > chunk.length then fail .internal
       else
         let ch := chunk.drop (pos % 2)
-        if rem < ch.length then
-          bind (add16 m "read:add" pos rem) fun np => ret (acc ++ ch.take rem, np)
-        else
-          bind (add16 m "read:add" pos ch.length) fun np =>
-          readLoop m p fuel np (rem - ch.length) (acc ++ ch)
+        if rem < ch.length then ret (acc ++ ch.take rem, pos + rem)
+        else readLoop _m p fuel (pos + ch.length) (rem - ch.length) (acc ++ ch)
 
 /-- `<EepromRange as Read>::read(buf)` with `buf.len() = n`: returns the bytes stored into the front of `buf`
     (their number is the returned `usize`) and the range afterwards. -/
@@ -208,29 +213,33 @@ def eofToOverrun {α : Type} (x : M α) : M α :=
   | .err .eof => (.err .overrun, x.2)
   | _ => x
 
-/-- The `loop` of `<EepromRange as Write>::write`: `written` counts 2 per word even for a padded odd tail. -/
-def writeLoop (m : Mode) : Nat → Dev → Range → List Nat → Nat → MW (Nat × Range)
+/-- The `loop` of `<EepromRange as Write>::write`: `written` counts the bytes taken from the buffer
+    (`buf.len() - rest.len()`: 2 per word, 1 for a zero-padded odd tail). -/
+def writeLoop (_m : Mode) : Nat → Dev → Range → List Nat → Nat → MW (Nat × Range)
   | 0, d, _, _, _ => liftW d (fail .fuel)
   | fuel + 1, d, r, buf, written =>
     if r.endp - r.pos = 0 then liftW d (ret (written, r))
     else
       match buf with
       | b0 :: b1 :: rest =>
-        bindW (writeWord d (r.pos / 2) b0 b1) fun _ d' =>
-        bindW (liftW d' (add16 m "write:add" r.pos 2)) fun np d' =>
-        writeLoop m fuel d' { r with pos := np } rest (written + 2)
+        bindW (liftW d (wordPos r.pos)) fun w d =>
+        bindW (writeWord d w b0 b1) fun _ d' =>
+        writeLoop _m fuel d' { r with pos := r.pos + 2 } rest (written + 2)
       | [b0] =>
-        bindW (writeWord d (r.pos / 2) b0 0) fun _ d' =>
-        bindW (liftW d' (add16 m "write:add" r.pos 2)) fun np d' =>
-        writeLoop m fuel d' { r with pos := np } [] (written + 2)
+        bindW (liftW d (wordPos r.pos)) fun w d =>
+        bindW (writeWord d w b0 0) fun _ d' =>
+        writeLoop _m fuel d' { r with pos := r.pos + 2 } [] (written + 1)
       | [] => liftW d (ret (written, r))
 
-/-- `<EepromRange as Write>::write(buf)`: returns `written` and the range afterwards. -/
+/-- `<EepromRange as Write>::write(buf)`: a non-empty buffer on an exhausted range is `Err(SectionOverrun)`;
+    otherwise returns `written` and the range afterwards. -/
 def Range.write (m : Mode) (d : Dev) (r : Range) (buf : List Nat) : MW (Nat × Range) :=
-  writeLoop m (buf.length + 1) d r buf 0
+  if buf.length ≠ 0 ∧ r.endp - r.pos = 0 then liftW d (fail .overrun)
+  else writeLoop m (buf.length + 1) d r buf 0
 
 /-- `embedded_io_async::Write::write_all` (default method): `Ok(0)` ⇒ `panic!("write() returned Ok(0)")`;
-    `buf = &buf[n..]` panics when `n > buf.len()` (which `write` produces for an odd tail). -/
+    `buf = &buf[n..]` panics when `n > buf.len()`. (`Lemmas/EepromWrite.writeAll_spec`: `write` never produces
+    either any more.) -/
 def writeAllLoop (m : Mode) : Nat → Dev → Range → List Nat → MW Range
   | 0, d, _, _ => liftW d (fail .fuel)
   | fuel + 1, d, r, buf =>
@@ -265,8 +274,8 @@ def catOf (v : Nat) : Nat :=
   | some c => c
   | none => Gen.Eeprom.categoryDefault.getD 0
 
-/-- `SubDeviceEeprom::start_at(word_addr, len_bytes)`: `EepromRange::new(.., word_addr, len_bytes / 2)`. -/
-def startAt (m : Mode) (wordAddr lenBytes : Nat) : M Range := Range.new m wordAddr (lenBytes / 2)
+/-- `SubDeviceEeprom::start_at(word_addr, len_bytes)`: `EepromRange::new(.., word_addr, len_bytes.div_ceil(2))`. -/
+def startAt (m : Mode) (wordAddr lenBytes : Nat) : M Range := Range.new m wordAddr ((lenBytes + 1) / 2)
 
 /-- Result of one iteration of the `category` loop. -/
 inductive CatStep where
@@ -569,7 +578,7 @@ def findString (m : Mode) (p : Prov) (N idx : Nat) : M (Option (List Nat)) :=
     | none => ret none
     | some r =>
       bind (Range.readByte m p r) fun nb =>
-      if si > nb.1 then ret none
+      if si ≥ nb.1 then ret none
       else
         bind (skipStrings m p si nb.2) fun r' =>
         bind (Range.readByte m p r') fun lb =>
